@@ -3,6 +3,7 @@ package rw
 import (
 	"context"
 	"fmt"
+	"os"
 	"sort"
 	"strings"
 
@@ -57,6 +58,10 @@ func permutations(n int) [][]int {
 	rec(nil, 0)
 	return out
 }
+
+// surveyAll (VERIF_RW_SURVEY=1, triage aid) keeps going after the first violation so that one run lists
+// every failing class of its scenario.
+var surveyAll = os.Getenv("VERIF_RW_SURVEY") != ""
 
 var conflictErrs = []error{storage.ErrOutOfOrderSample, storage.ErrDuplicateSampleForTimestamp, storage.ErrOutOfBounds, storage.ErrTooOldSample}
 
@@ -116,8 +121,11 @@ func runC23(x *simkit.Exec) {
 			}
 			statuses[code] = append(statuses[code], fmt.Sprint(ord))
 			c23Judge(x, msKey, rf, q, ms, code, body, rv, ord, entry)
-			if x.Failed() {
+			if x.Failed() && !surveyAll {
 				return
+			}
+			if x.Failed() {
+				break
 			}
 		}
 		if len(statuses) > 1 {
@@ -132,7 +140,9 @@ func runC23(x *simkit.Exec) {
 			}
 			x.Violate("status-independent-of-response-order", msKey, "replica outcomes %v (by replica index), entry node n%d: HTTP status depends on the order of replica responses: %s",
 				rv, entry, strings.Join(parts, "; "))
-			return
+			if !surveyAll {
+				return
+			}
 		}
 	}
 	x.Nontrivial = true
@@ -175,7 +185,7 @@ func c23Judge(x *simkit.Exec, msKey string, rf, q int, ms [3]int, code int, body
 // c23Execute runs one request under one forced response order and returns the HTTP status.
 func c23Execute(x *simkit.Exec, salt string, rf int, algo receive.HashringAlgorithm, entry int, seriesName string, rv []outcome, variant []int, ord []int) (code int, body string, ok bool) {
 	x.Bubble(salt, func(s *simkit.Sim) {
-		c, err := newCluster(s, x, clusterCfg{nodes: rf, rf: rf, algo: algo})
+		c, err := newCluster(s, x, clusterCfg{workers: 2, nodes: rf, rf: rf, algo: algo})
 		if err != nil {
 			x.Troublef("c23: cluster: %v", err)
 			return
